@@ -322,7 +322,7 @@ func (IndexScenario) Execute(sim *sched.Sim, ci interface{}, prop string, race b
 		sim.Optional[p] = true
 	}
 	sim.RoleOf = roleOf
-	sim.Canon = newCanon().canon
+	useCanon(sim)
 	dir := tempDBDir()
 	defer os.RemoveAll(dir)
 	db := openBadger(dir)
